@@ -74,18 +74,19 @@ PARTIAL = [
     'non-last-axis identification is checked by the NumPy oracle on every run',
     'outer: outer_covers_once (every output cell written exactly once, any operand rank) is proved; that the lhs/rhs offsets of each step '
     'are the outer-product operands, and the evaluator-level simdOuter = scalarOuter, are not (correspondence + NumPy only)',
-    'matmul: no theorem (model + enumerator diff + NumPy oracle only)',
+    'matmul: matmul_inner_covers_once (the inner steps of every output element read its lhs row / rhs column exactly once, any K) is '
+    'proved; the evaluator-level simdMatmul = sum of products is not (fmadd rounding is outside the model anyway; correspondence + NumPy)',
     'column-major operands, (1,1) broadcast operands under a multi-row result, ops whose identity is not 0 in one-element reductions, '
     'subtract.reduce, negative axes other than -1, NaN/-0.0 through min/max-built activations are outside the theorem domains: '
     'known findings of the unchanged tree (counterexample theorems in Props/C12.lean where the model covers them)',
 ]
 MANIFEST = dict(
-    text='Proof: 26 Lean theorems over all element counts / row lengths and all lane counts > 0: closed form of the packed loop, every '
+    text='Proof: 27 Lean theorems over all element counts / row lengths and all lane counts > 0: closed form of the packed loop, every '
          'packed access inside its buffer, packed chunks + tail partition [0,n); SIMD unary / same-shape binary = scalar evaluator; '
          '2-d broadcasting binary: every output cell written exactly once, operand offsets = NumPy broadcasting, offsets in bounds, '
          'evaluator = NumPy broadcasting; full reduction = left fold over a commutative monoid when the literal 0 is its identity; '
          'horizontal reduction with identity padding = monoid sum of every row = the n-d scalar reference over the last axis; vertical reduction = scalar row accumulation loop = '
-         'column-wise left fold; outer enumerator covers every output cell once (any rank). Intrinsic wrappers are an explicit '
+         'column-wise left fold; outer enumerator covers every output cell once (any rank); matmul inner steps read each lhs row / rhs column once. Intrinsic wrappers are an explicit '
          'lane-wise hypothesis. Tied to the C++ by a differential run of array::fn(args, ctx) for six SIMD contexts x float/double '
          'against array::fn(args) in the same binary, the Lean model and NumPy, plus the pure enumerators tuple by tuple and an ASan run.',
     note='Lean kernel + propext/Classical.choice/Quot.sound; model hand-written, fidelity rests on the correspondence run; lane-wise '
